@@ -1,6 +1,6 @@
 """C01 — every doer runs a well-formed lifecycle on every exit path."""
 from harness.drivers import sched_common as sc
-from harness.drivers.sched_common import (COQ_REQUIRES, COQ_CHECK, COQ_CASE_TYPE, COQ_BRANCHES, COQ_HEADER, SHARD, MODELLED,
+from harness.drivers.sched_common import (COQ_REQUIRES, COQ_CHECK, COQ_CASE_TYPE, COQ_BRANCHES, COQ_HEADER, SHARD, CASE_TIMEOUT, MODELLED,
                                           run_impl, to_coq, shrink, distribution)
 
 PROP = "C01"
